@@ -55,6 +55,9 @@ func (g *RecGun) Bind(a core.Aggregator, deps core.GunDeps) error {
 func AmmoName(a core.Ammo) string {
 	switch x := a.(type) {
 	case *grpcammo.Ammo:
+		if x.IsInvalid() { // an undecodable line handed out under continue-on-error: it has no name of its own
+			return "!invalid"
+		}
 		return x.Tag
 	case *grpcscn.Scenario:
 		return x.Name
